@@ -220,16 +220,19 @@ example :
 
 /-! ## 4. the result checker -/
 
-/-- **within bounds**: every parameter has exactly one argument under `σ`; it is neither a
+/-- **within bounds**: every parameter has exactly one argument under `σ`; unless it is the
+    caller's own assignment (`requestedBy`: the requested type itself or a projection of it — then
+    the bound is the caller's business), it is neither a
     primitive type nor a bare type constructor (nor is the bound of a projection); and it respects
     the parameter's declared bound after substituting the arguments (`Within`: the argument — for
     a bounded projection its bound — is `SubT`-below the substituted bound, or that bound is the
     top type; a star argument and a star bound are unconstrained; when the substituted bound is
     itself a projection the argument is below the projection's bound) -/
-def WithinBounds (U : Ty → Prop) (top : Ty) (params : List Ty) (σ : TMap) : Prop :=
-  ∀ p ∈ params, ∃ a, σ.get p = some a ∧
-    a.isPrim = false ∧ a.isTCon = false ∧ (argCore a).isPrim = false ∧ (argCore a).isTCon = false ∧
-    ∀ b, boundOf p = some b → Within U top a (substituteType b σ)
+def WithinBounds (U : Ty → Prop) (I : InstIn) (σ : TMap) : Prop :=
+  ∀ p ∈ I.params, ∃ a, σ.get p = some a ∧
+    (requestedBy I p a = true ∨
+     (a.isPrim = false ∧ a.isTCon = false ∧ (argCore a).isPrim = false ∧ (argCore a).isTCon = false ∧
+      ∀ b, boundOf p = some b → Within U I.top a (substituteType b σ)))
 
 /-- **`instOK_sound`**: what the executable checker accepts is within bounds in the declarative
     sense, relative to any universe `U` closed under sub-terms that contains the arguments and the
@@ -237,16 +240,17 @@ def WithinBounds (U : Ty → Prop) (top : Ty) (params : List Ty) (σ : TMap) : P
 theorem instOK_sound {U : Ty → Prop} (hU : ClosedU U) (I : InstIn) (σ : TMap) (targs : Option (List Ty))
     (hUa : ∀ p ∈ I.params, ∀ a, σ.get p = some a → U (argCore a))
     (hUb : ∀ p ∈ I.params, ∀ b, boundOf p = some b → U (substituteType b σ))
-    (h : instOK I σ targs = true) : WithinBounds U I.top I.params σ := by
+    (h : instOK I σ targs = true) : WithinBounds U I σ := by
   intro p hp
   simp only [instOK, Bool.and_eq_true] at h
   obtain ⟨a, others, hg, h1⟩ := instOKL_mem h.2 p hp
-  simp only [instOK1, Bool.and_eq_true, Bool.not_eq_true'] at h1
-  obtain ⟨⟨⟨⟨⟨⟨n1, n2⟩, n3⟩, n4⟩, hb⟩, _⟩, _⟩ := h1
-  refine ⟨a, hg, n1, n2, n3, n4, ?_⟩
-  intro b hbd
-  rw [hbd] at hb
-  exact withinD_sound hU (hUa p hp a hg) (hUb p hp b hbd) hb
+  simp only [instOK1, Bool.and_eq_true, Bool.or_eq_true, Bool.not_eq_true'] at h1
+  obtain ⟨⟨hreq | ⟨⟨⟨⟨n1, n2⟩, n3⟩, n4⟩, hb⟩, _⟩, _⟩ := h1
+  · exact ⟨a, hg, Or.inl hreq⟩
+  · refine ⟨a, hg, Or.inr ⟨n1, n2, n3, n4, ?_⟩⟩
+    intro b hbd
+    rw [hbd] at hb
+    exact withinD_sound hU (hUa p hp a hg) (hUb p hp b hbd) hb
 
 /-- exactly one argument per parameter: the returned argument list is the image of the
     parameter list under the returned map -/
@@ -259,17 +263,19 @@ theorem instOK_args (I : InstIn) (σ : TMap) (as : List Ty) (h : instOK I σ (so
   obtain ⟨a, _, hg, _⟩ := instOKL_mem h.2 p hp
   simp [hg]
 
-/-- a projection that the caller did not ask for is *permitted* -/
+/-- a projection that the caller did not ask for (neither for the parameter itself nor for a
+    parameter bounded by it) is *permitted* -/
 theorem instOK_projection (I : InstIn) (σ : TMap) (targs : Option (List Ty)) (h : instOK I σ targs = true)
     (p : Ty) (hp : p ∈ I.params) (v : Nat) (bd : Option Ty) (hg : σ.get p = some (wild v bd))
-    (hpre : I.pre.get p = none) : bd.isSome = true ∧ ∃ others, projAllowed I p others v = true := by
+    (hpre : I.pre.get p = none) (hbelow : requestsBelow I p = []) :
+    bd.isSome = true ∧ ∃ others, projAllowed I p others v = true := by
   simp only [instOK, Bool.and_eq_true] at h
   obtain ⟨a, others, hg', h1⟩ := instOKL_mem h.2 p hp
   rw [hg] at hg'
   cases hg'
   simp only [instOK1, Bool.and_eq_true] at h1
   have h4 := h1.2
-  simp only [hpre, Bool.false_or, Bool.and_eq_true] at h4
+  simp only [hpre, hbelow, List.any_nil, Bool.false_or, Bool.and_eq_true] at h4
   exact ⟨h4.1, others, h4.2⟩
 
 /-- a caller's assignment is kept, at most wrapped in a permitted projection — unless another
